@@ -604,6 +604,27 @@ func c10ShEnvUnit() *Unit {
 				run(files, []string{"--silent", "caller"}, "SEEN=call TPL=call", "wrong_precedence", "sh_env:call_vars:"+tag, "call vars with a dynamic variable reading $NAME")
 			}
 		}
+		// global env entries whose template depends on the task: resolved for each task that is compiled
+		{
+			files := map[string]string{"Taskfile.yml": "version: '3'\nenv:\n  WHOENV: 'env-{{.TASK}}-{{.TV}}'\ntasks:\n  a:\n    vars: {TV: va}\n    cmds:\n      - echo \"a $WHOENV\"\n  b:\n    vars: {TV: vb}\n    cmds:\n      - echo \"b $WHOENV\"\n  both:\n    cmds:\n      - task: a\n      - task: b\n"}
+			run(files, []string{"--silent", "a", "b"}, "a env-a-va\nb env-b-vb", "wrong_env_precedence", "global_env_template_per_task:two_cli_tasks", "global env entry templated with the task's own variables, two tasks on one command line")
+			run(files, []string{"--silent", "both"}, "a env-a-va\nb env-b-vb", "wrong_env_precedence", "global_env_template_per_task:two_called_tasks", "global env entry templated with the task's own variables, two tasks called from one task")
+		}
+		// a dynamic (sh) global env entry and a variable of the same name are two things: the command's
+		// environment gets the env entry, the template gets the variable
+		for mask := 0; mask < 4; mask++ {
+			taskVar, callVar := mask&1 != 0, mask&2 != 0
+			tf := "version: '3'\nenv:\n  NAME: {sh: 'echo from-global-env-sh'}\ntasks:\n  t:\n"
+			if taskVar {
+				tf += "    vars: {NAME: from-task-var}\n"
+			}
+			tf += "    cmds:\n      - echo \"ENV=$NAME\"\n  caller:\n    cmds:\n      - task: t\n"
+			if callVar {
+				tf += "        vars: {NAME: from-call-var}\n"
+			}
+			files := map[string]string{"Taskfile.yml": tf}
+			run(files, []string{"--silent", "caller"}, "ENV=from-global-env-sh", "wrong_env_precedence", fmt.Sprintf("global_sh_env_vs_variable_of_same_name:task_var=%v:call_var=%v", taskVar, callVar), "dynamic global env entry NAME next to variables called NAME")
+		}
 		// a global that an included Taskfile redefines keeps its place in the evaluation order
 		for _, form := range []string{"short", "long", "nested"} {
 			for _, kind := range []string{"template", "sh"} {
